@@ -85,6 +85,8 @@ def rhd_case(rng, i):
     if toggles["restart"]:
         cfg["dump_interval"] = 0.
     case = dict(mode="rhd", cfg=cfg, toggles=toggles, threads=rng.choice([1, 4]), steps=rng.choice([2, 3, 4]))
+    if toggles["restart"]:
+        case["restart_threads"] = rng.choice([case["threads"], 1, 2, 4, 8])
     if radiation and rng.chance(0.3):
         make_varsources(case, rng)
     return case
@@ -214,9 +216,11 @@ def run_case(job):
     res = dict(i=i, case=case, tool=tool, viol=[], legs=0)
 
     def go(a, leg):
-        r = common.run(prefix + [exe] + a + ["--threads", str(case["threads"]), "--dirty"], timeout=timeout, env=dict(env, OMP_NUM_THREADS=str(case["threads"])), cwd=rd)
+        # a restarted run may use another number of threads than the run that wrote the dump (job moved to another node)
+        nth = case.get("restart_threads", case["threads"]) if leg == "restart" else case["threads"]
+        r = common.run(prefix + [exe] + a + ["--threads", str(nth), "--dirty"], timeout=timeout, env=dict(env, OMP_NUM_THREADS=str(nth)), cwd=rd)
         if r.timed_out:
-            r = common.run(prefix + [exe] + a + ["--threads", str(case["threads"]), "--dirty"], timeout=timeout, env=dict(env, OMP_NUM_THREADS=str(case["threads"])), cwd=rd)
+            r = common.run(prefix + [exe] + a + ["--threads", str(nth), "--dirty"], timeout=timeout, env=dict(env, OMP_NUM_THREADS=str(nth)), cwd=rd)
         res["legs"] += 1
         if r.timed_out:
             res["timed_out"] = True
@@ -289,6 +293,7 @@ def main():
                 case = pick_rhd(r, i, lambda c: c["cfg"]["radiation"] and not c["toggles"]["mask"])
                 case["toggles"]["restart"] = True
                 case["cfg"]["dump_interval"] = 0.
+                case["threads"], case["restart_threads"] = 4, 2      # dump written with 4 threads, restarted with 2
             if i == 3:
                 case["toggles"]["live"] = "surface"
                 case["cfg"]["ncell"] = [6 * case["cfg"]["nsub"][0], 2 * case["cfg"]["nsub"][1], 3 * case["cfg"]["nsub"][2]]
